@@ -97,6 +97,8 @@ def one_run(ctx, bins, peer, rid, setup, conf_name, run, skip, max_servers, goma
     open(confp, "w").write(CONFIGS[conf_name])
     evp = os.path.join(d, "events.jsonl")
     script = {"default": "canned", "probe": True, "answer_delay_max_ms": 20, "seed": seed, "mode": "logging", "start_delay_ms": (seed * 37) % 300, "stop_delay_ms": (seed * 53) % 400}
+    if ((seed * 2654435761) >> 7) % 3 == 0:
+        script["own_cert"] = True  # the server serves a certificate of its own, not the one it was offered: requests must carry the reported one
     if seed % 2 == 0:
         script["omit_host"] = True  # the host field of the server's answer is optional: the runner fills in its default
     if fail_key == "no-cert":
@@ -230,6 +232,8 @@ def check_run(ctx, res, sel, setup, max_servers, fail_key, rid, stats, desc):
                 ctx.add_violation("c05/request-without-host/" + setup, "request of %r was handed to the client without a host (server answered %s)" % (name, "without the optional host field" if res["script"].get("omit_host") else "with a host"), w)
             if e["name_header"] != name:
                 ctx.add_violation("c05/test-name-header/" + setup, "request of %r carries x-test-case-name %r" % (name, e["name_header"]), w)
+            if res["script"].get("own_cert") and info["tls"]:
+                stats["dispatches_to_servers_with_own_certificate"] = stats.get("dispatches_to_servers_with_own_certificate", 0) + 1
             if not str(e.get("probe", "")).startswith("ok"):
                 ctx.add_violation("c05/server-not-alive/" + setup, "request of %r points at %s:%s where no matching server answered the probe: %s" % (name, e["host"], e["port"], e.get("probe")), w)
             if info["version"] == 2 and info["tls"] and "alpn=h2" not in str(e.get("probe", "")):
